@@ -347,6 +347,7 @@ func init() {
 		relC04(x, 60000*x.scale)
 	}
 	props["C06"] = func(x *Ctx) {
+		x.hugeHaystacks()
 		x.aliasedViews(allSS)
 		x.kelvinTails(allSS)
 		x.truncatedInPlace(allSS)
@@ -363,6 +364,7 @@ func init() {
 		x.guardedAPI()
 	}
 	props["C07"] = func(x *Ctx) {
+		x.hugeHaystacks()
 		x.aliasedViews(allSS)
 		x.nonLetterHead(allSS)
 		x.kelvinTails(allSS)
@@ -1299,6 +1301,42 @@ func (x *Ctx) truncatedInPlace(fns []string) {
 		}
 	}
 	x.note("sequences truncated in place against the complete sequence, at every offset 0..24: %d cases", n)
+}
+
+// hugeHaystacks: offsets, distances and counts beyond 2^16 (and a haystack beyond 2^20): a match just before, at and
+// after offset 65536, the only match at the far end / the far start, more than 65535 occurrences to count
+func (x *Ctx) hugeHaystacks() {
+	n := 0
+	ev := func(fn string, s, t []byte, r int64) {
+		x.eval(&Case{Fn: fn, S: s, T: t, R: r}, false)
+		n++
+	}
+	for _, fill := range []string{"x", "\u00e9"} {
+		for _, size := range []int{65530, 65536, 65541, 70001, 1<<20 + 3} {
+			body := bytes.Repeat([]byte(fill), size/len(fill))
+			end := append(append([]byte{}, body...), "K\u00e9nd"...)
+			start := append([]byte("K\u00e9nd"), body...)
+			for _, nd := range []string{"k\u00c9ND", "\u212a\u00e9", "d"} {
+				ev("Index", end, []byte(nd), 0)
+				ev("LastIndex", start, []byte(nd), 0)
+				ev("Contains", end, []byte(nd), 0)
+				ev("Cut", end, []byte(nd), 0)
+			}
+			ev("HasSuffix", end, []byte("k\u00c9ND"), 0)
+			ev("IndexRune", end, nil, 0x212A)
+			ev("IndexByte", end, nil, 'k')
+			ev("LastIndexByte", start, nil, 'K')
+			ev("IndexAny", end, []byte("qK"), 0)
+			ev("LastIndexAny", start, []byte("qk"), 0)
+			ev("IndexNonASCII", append(bytes.Repeat([]byte("x"), size), 0xC3, 0xA9), nil, 0)
+		}
+	}
+	many := bytes.Repeat([]byte("kK"), 35000) // 70000 one-byte matches, 35000 two-byte ones
+	ev("Count", many, []byte("K"), 0)
+	ev("Count", many, []byte("kk"), 0)
+	ev("Count", many, []byte("\u212a"), 0)
+	ev("Count", bytes.Repeat([]byte("-"), 70000), []byte("-"), 0)
+	x.note("haystacks beyond 2^16 / 2^20 bytes and counts beyond 2^16: %d cases", n)
 }
 
 // fffdBait: a literal U+FFFD in one argument opposite a multi-byte code point in the other, behind (or in
